@@ -65,9 +65,17 @@ GATES = {3: 'types', 13: 'full_features', 5: 'called_from_internal', 6: 'intf_bl
          23: 'mixed_role_module', 15: 'unused_imports', 30: 'rem_then_rename', 28: 'dup_free_then_wrap', 26: 'dup_intf_then_rename', 1: 'kernel_module_globals', 31: 'internal_calls', 25: 'internal_in_subgraph', 27: 'non_procedure_in_subgraph', 29: 'bare_external_wrap'}
 
 
+def pick_gate(idx):
+    if os.environ.get('C2425_NOGATES'):
+        return None
+    if os.environ.get('C2425_ONLYGATES'):
+        return sorted(GATES.values())[idx % len(GATES)]
+    return GATES.get(idx % 32)
+
+
 def gen_case(rng, idx):
     """project, config, pipeline spec, path style; returns dict or None"""
-    gate = None if os.environ.get('C2425_NOGATES') else GATES.get(idx % 32)
+    gate = pick_gate(idx)
     traits = set()
     extra = {}
     if gate == 'types':
@@ -100,6 +108,7 @@ def gen_case(rng, idx):
         drivers = PL.add_drivers(P, rng)
     cfg, meta = PL.gen_config(rng, P, {'lists': gate == 'lists', 'expand_false': gate == 'lists',
                                        'kernel_seed': rng.random() < 0.2, 'drivers': drivers,
+                                       'replicate_closed': rng.random() < 0.5,
                                        'mixed_role_module': gate in ('mixed_role_module', 'full_features')})
     if cfg is None:
         return None
@@ -308,8 +317,9 @@ def run_case(idx, rng, tier, ctx):
 
     def viol(kind, detail, msg):
         """precise mechanism key in the documented domain; coarse outcome class per gate inside a gated slice"""
-        key = f'gated[{gate}]:{COARSE.get(kind.split(":")[0], "lists-differ")}' if gate else (
-            f'{kind}:{detail}' if detail else kind)
+        key = f'gated:{gate}' if gate else (f'{kind}:{detail}' if detail else kind)
+        if gate:
+            msg = f'[{COARSE.get(kind.split(":")[0], "lists-differ")}: {kind}:{detail}] {msg}'
         if not any(v['key'] == key for v in res['violations']):
             res['violations'].append({'key': key, 'msg': msg[:900], 'witness': witness})
 
@@ -434,6 +444,8 @@ def run_case(idx, rng, tier, ctx):
         drivers = set(case['meta']['driver_seeds'])
         if buildable and (cfg['default']['replicate'] or any(where.get(d) in rep_files for d in drivers)):
             buildable = False   # a replicated driver is compiled twice by construction of the configuration
+        if buildable and case['meta']['replicated'] and not case['meta']['replicate_closed']:
+            buildable = False   # a retained original may call kernels whose originals are replaced
         if buildable and case['meta']['replicated'] and not any(n == 'dep' for n, _ in spec):
             buildable = False   # without renaming a replicated kernel is defined twice by construction
         if buildable and any(n in ('dep', 'wrap') for n, _ in spec) and set(case['meta']['seeds']) != drivers:
